@@ -338,6 +338,18 @@ def rule_g(ctx):
   ctx.ob('C06.g', f.fq + '#sequence-length', ok,
          'sequences of different length are unequal (tested before the pairwise loop)', f.loc,
          'length test missing or no longer returns False')
+  # list and tuple are different categories of the type order (and hash
+  # differently): a list is never equal to a tuple
+  mixed = []
+  for k in g.nodes:
+    if k.kind == 'test' and isinstance(k.ast, ast.Call) and A.call_name(k.ast) == 'isinstance' and len(k.ast.args) == 2:
+      t2 = k.ast.args[1]
+      if isinstance(t2, ast.Tuple) and {'list', 'tuple'} <= {A.unparse(e) for e in t2.elts}:
+        mixed.append(f'`{A.unparse(k.ast)}` (line {k.lineno})')
+  ctx.ob('C06.g', f.fq + '#container-kind', not mixed,
+         'sequences are compared element-wise only with a sequence of the same kind (list with list, tuple with tuple)',
+         f.loc, 'one test admits both kinds: ' + ', '.join(mixed) + ' - eq([1], (1,)) holds while lt orders them by kind and '
+         'their hashes differ')
   ks = [k for t, k in tests.items() if 'set(left.keys())' in t and 'set(right.keys())' in t]
   ok = bool(ks) and any(m.kind == 'return' and A.unparse(m.ast.value) == 'False'
                         for m, lab in ks[0].succ if lab == 'true')
